@@ -154,10 +154,13 @@ def swarm(rng, profile_name):
             knobs["p_none"] = 0.0
         if rng.random() < 0.5:
             knobs["kinds"] = ["int", "date", "bool", "float", "int"]      # the promotable kinds
+        if knobs.get("kinds") and "tcell" in knobs["kinds"]:
+            knobs["kinds"] = None       # record cells stay with the short runs (cost of nested hashing x length)
         knobs["max_objs"] = 3
         steps = min(steps, 24 if profile_name == "relhist" else 14)
         if u >= 0.7:       # beyond 2**16 elements: a handful of steps on one or two objects
             knobs["max_objs"] = 2
+            knobs["max_cols"] = 3
             steps = min(steps, 6)
             for k in ("hammer", "cast", "agg"):
                 if k in w:
